@@ -3,7 +3,7 @@ from vlib.common import Result
 from props import shared
 
 PID = "C03"
-LEAN_MODULES = ['BemppVerif.Props.C03']
+LEAN_MODULES = ['BemppVerif.Props.C03', 'BemppVerif.Gen.AsmMatch']
 N = "BemppVerif.C03."
 THEOREMS = []
 PARTIAL = {N + "rotation_preserves_invariants": "kernel-level and spec-level statements only: equivariance of the geometric factors "
@@ -27,7 +27,13 @@ def generate(ctx):
     info = dict(kernels=shared.gen_kernels()[0], asm=shared.gen_asm()[0])
     THEOREMS[:] = ([N + t for t in ("kernels_translation_invariant", "kernels_depend_on_r_dny_dnx", "rotation_preserves_invariants",
                                     "scaling_of_invariants", "laplace_kernel_homogeneity", "galerkin_element_order_irrelevant")]
-                   + sum(shared.KERNEL_FACTS.values(), []))
+                   + sum(shared.KERNEL_FACTS.values(), [])
+                   # the traced assemblers = the model / the decompositions, entry by entry: these statements carry how the
+                   # normals enter (normal x normal multiplier on BOTH sides, which is what makes a swapped-normals flag
+                   # equivalent to reversed orientation) and that nothing but vertex differences enters the geometry.
+                   # (seeded change C03-c dropped the trial-side multiplier of the Helmholtz hypersingular n.n term)
+                   + shared.asm_theorems("regular_matches", "singular_matches", "hyp_regular", "hyp_singular", "hyp_modified",
+                                         "hyp_helmholtz"))
     return info
 
 
